@@ -766,8 +766,15 @@ class Interp:
                     self.err('level', node, f'offsets that point into level {to} are re-based by an index of level {y.level}')
                     return TOP
                 r = OffC(x.level, to, x.win, x.top) if isinstance(x, Off) else OffC(x.level, x.to, x.win, x.top)
-                r.rebased = True
+                # `offs - offs[0]` turns positions into window-relative ones only for offsets that were themselves cut to the window (their first entry is the
+                # window start).  The whole, unsliced offsets of an inner level start at the beginning of the buffer: re-basing them is a no-op, they stay absolute
+                r.rebased = bool(x.win)
                 return r
+        if isinstance(a, Arr) and isinstance(b, Arr) and getattr(a, 'storage', False) and getattr(b, 'storage', False) and isinstance(op, (ast.Add, ast.Sub, ast.Mult)):
+            # element-wise arithmetic of two views of the coordinate buffer is carried out in the buffer's own width: int8/int16/int32 coordinates wrap
+            # silently, whereas scalars read from the buffer are promoted (numba: to int64 / float64 accumulators; python: to int / float)
+            self.err('width', node, 'element-wise arithmetic on two views of the coordinate buffer is done in the storage width of the coordinates: '
+                                    'narrow integer subtypes (int8, int16, int32) wrap around silently; read the operands as scalars or cast the views to 64 bits first')
         qa, qb = self.elemq(a), self.elemq(b)
         isarr = isinstance(a, Arr) or isinstance(b, Arr)
         lvl = a.level if isinstance(a, Arr) else (b.level if isinstance(b, Arr) else None)
@@ -1156,7 +1163,11 @@ class Interp:
                     q = self.elemq(store)
                     if q is not None and par is not None and q.dim != {('X' if par == 0 else 'Y'): 1}:
                         self.err('axis', node, f'{"X" if par == 0 else "Y"} stride receives {fmt(q)}')
-                return Arr(Coord('X' if par == 0 else 'Y')) if par is not None else TOP
+                if par is None:
+                    return TOP
+                r_ = Arr(Coord('X' if par == 0 else 'Y'))
+                r_.storage = True        # a strided VIEW of the coordinate buffer: its elements have the buffer's own width (int8 .. float64)
+                return r_
             if st is not None and isinstance(st, Const) and st.v == -1:
                 return base
             win = any(isinstance(b, Idx) for b in (lo, hi))
